@@ -249,6 +249,8 @@ def owners(div):
         return {"C13"}
     if kind == "rejected":
         return set(FREE_OWNERS.get(fn, {"C14"})) | {"C14"}
+    if kind == "crash" and fn == "anyfault":
+        return {"C05", "C14"}
     if kind == "crash" and fn == "wincmd":
         return {"C18"}
     if kind == "crash":
@@ -369,6 +371,8 @@ def signature(prop, div):
     if div.get("kind") == "rejected":
         return "%s %s kind=rejected-by-CoreTrace args=%s at=%s" % (prop, fn, json.dumps(args, sort_keys=True, separators=(",", ":"))[:200],
                                                                   json.dumps(obs.get("rejected_line"), sort_keys=True, separators=(",", ":"))[:300])
+    if div.get("kind") == "contract" and div.get("fn") == "anyfault":
+        return "%s anyfault why=%s calls=%s fault(kind,index)=%s" % (prop, ",".join(w for w in div.get("why", []) if w.startswith(prop)), json.dumps(call.get("scenario")), json.dumps(call.get("faults")))
     if div.get("kind") == "contract" and div.get("fn") == "wincmd":
         return "%s wincmd why=%s argv=%s cmd=%s" % (prop, ",".join(div.get("why", [])), json.dumps(call.get("argv")), json.dumps(obs.get("cmd")))
     if div.get("kind") == "contract":
@@ -1035,6 +1039,107 @@ def fam_realstatus(tier, outdir):
         shutil.rmtree(d, ignore_errors=True)
 
 
+def collect_scripts(module, cfgpath, outdir, limit, tlc_workers=4):
+    """Run TLC on a Core family and keep up to `limit` exported scripts (as python lists)."""
+    meta = os.path.join(outdir, "m_collect")
+    cmd = ["java", "-XX:+UseParallelGC", "-Xmx6g", "-cp", vlib.TLA_CP, "tlc2.TLC", "-workers", str(tlc_workers), "-metadir", meta, "-config", cfgpath,
+           "-fp", str(SEED % 120), os.path.join(SPEC, module + ".tla")]
+    p = subprocess.Popen(cmd, stdout=subprocess.PIPE, stderr=subprocess.STDOUT, cwd=SPEC)
+    out = []
+    for line in p.stdout:
+        if line.startswith(b'<<"BEH"') and line.endswith(b'">>\n'):
+            out.append(unescape_beh(line))
+            if len(out) >= limit:
+                p.kill(); break
+    p.wait()
+    shutil.rmtree(meta, ignore_errors=True)
+    for fpath in glob.glob(os.path.join(SPEC, "*_TTrace_*")):
+        os.remove(fpath)
+    return out
+
+
+def fam_anyfault(tier, outdir):
+    """A failure injected at EVERY fault point reached by TLC-generated call sequences (any API call; allocations and close
+    included), then destroy: records validated by LeakTrace.tla (C05 C06 C14)."""
+    t0 = time.time()
+    nscripts = 150 if tier == "quick" else 3000
+    life_c = {"Handles": "{1}", "MaxTime": 1, "MaxCalls": 6, "PipeCap": 4, "MaxOut": 2, "ExitCodes": "{3}", "TermDelay": 1, "Depth": '"full"'}
+    cfg1 = os.path.join(outdir, "af_life.cfg")
+    write_cfg(cfg1, "Spec", life_c, [], export_stride=97 if tier == "quick" else 11)
+    stream_c = {"Handles": "{1}", "MaxTime": 1, "MaxCalls": 5, "PipeCap": 4, "MaxOut": 3, "ExitCodes": "{3}", "TermDelay": 1, "Inputs": "{99, 3}",
+                "ReadSizes": "{1, 3}", "WriteSizes": "{0, 3, 5}", "DlOpts": "{0, 1}", "Mode": '"drain"', "SinkFails": "{2}", "NbOpts": "{TRUE, FALSE}"}
+    cfg2 = os.path.join(outdir, "af_drain.cfg")
+    write_cfg(cfg2, "Spec", stream_c, [], export_stride=97 if tier == "quick" else 11)
+    base = collect_scripts("MC_Life", cfg1, outdir, nscripts) + collect_scripts("MC_Stream", cfg2, outdir, nscripts // 2)
+    base = [s for s in base if sum(1 for st in s if st.get("e") == "call") >= 3]
+    if len(base) < 20:
+        raise Infra("too few base scripts for the fault-anywhere sweep: %d" % len(base))
+    def with_cfg(s, g):
+        c = dict(s[0]); c["keepgoing"] = 1; c["gfault"] = g
+        return [c] + s[1:]
+    count = run_scripts_traced_plain([with_cfg(s, 0) for s in base], outdir, "afcount")
+    scripts, meta_l = [], []
+    for s, v in zip(base, count):
+        if not v or not v.get("kg"):
+            raise Infra("fault-anywhere count pass failed: %s" % json.dumps(v)[:300])
+        if v.get("hung") or v.get("nfd") != 3 or v.get("nalloc") != 0 or v.get("mon"):
+            raise Infra("fault-anywhere base script does not balance without faults: %s" % json.dumps(v)[:300])
+        for g in range(1, v["gcount"] + 1):
+            scripts.append(with_cfg(s, g)); meta_l.append((s, g))
+    verd = run_scripts_traced_plain(scripts, outdir, "af")
+    averd = run_scripts_traced_plain(scripts[::3], outdir, "af_asan", flavor="asan")
+    recs, bad = [], []
+    for i, v in enumerate(verd):
+        if not v or not v.get("kg"):
+            d = dict(v or {"kind": "lost"}); d.setdefault("kind", "crash"); d["fn"] = "anyfault"; d["script"] = scripts[i]; d["call"] = {"fn": "anyfault", "gfault": meta_l[i][1]}
+            bad.append(d); continue
+        recs.append({"id": i, "hung": v["hung"], "nfd": v["nfd"], "basefd": 3, "nalloc": v["nalloc"], "mon": v["mon"], "hit": v["hit"], "gkind": v["gkind"],
+                     "failed_children_unreaped": v["failed_children_unreaped"]})
+    for i, v in enumerate(averd):
+        if not v or not v.get("kg"):
+            d = dict(v or {"kind": "lost"}); d.setdefault("kind", "crash"); d["fn"] = "anyfault"; d["flavor"] = "asan"; d["script"] = scripts[::3][i]
+            d["call"] = {"fn": "anyfault", "gfault": meta_l[::3][i][1]}
+            bad.append(d)
+    tf = os.path.join(outdir, "anyfault.ndjson")
+    open(tf, "w").write("\n".join(json.dumps(r) for r in recs) + "\n")
+    env = dict(os.environ); env["TRACE"] = tf
+    meta = os.path.join(outdir, "m_leak")
+    r = subprocess.run(["java", "-Xss32m", "-Xmx4g", "-cp", vlib.TLA_CP, "tlc2.TLC", "-workers", "1", "-metadir", meta, "-config", os.path.join(SPEC, "LeakTrace.cfg"),
+                        os.path.join(SPEC, "LeakTrace.tla")], capture_output=True, text=True, cwd=SPEC, env=env)
+    shutil.rmtree(meta, ignore_errors=True)
+    if "No error has been found" not in r.stdout:
+        raise Infra("LeakTrace validation did not complete:\n" + r.stdout[-1500:])
+    st = parse_tlc_stats(r.stdout)
+    vl = [l for l in r.stdout.splitlines() if l.startswith('<<"VERDICT"')]
+    rejected = unescape_beh((vl[0].replace('<<"VERDICT", "', '<<"BEH", "') + "\n").encode())
+    for rj in rejected:
+        rec = recs[[x["id"] for x in recs].index(rj["id"])]
+        s, g = meta_l[rj["id"]]
+        calls = [st_.get("fn") for st_ in s if st_.get("e") == "call"]
+        bad.append({"ok": 0, "kind": "contract", "fn": "anyfault", "why": sorted(rj["why"]), "call": {"fn": "anyfault", "scenario": calls, "faults": [[0, rec["gkind"], g]]},
+                    "obs": rec, "script": scripts[rj["id"]]})
+    return {"family": "anyfault", "tlc": st, "scripts": len(scripts), "replayed": len(verd) + len(averd), "ok": len(recs) - len(rejected), "bad": bad,
+            "samples": [{"base_calls": [st_.get("fn") for st_ in base[0] if st_.get("e") == "call"], "fault_points": count[0]["gcount"]}],
+            "wall_tlc": time.time() - t0, "asan_replayed": len(averd), "replay_stride": 1, "base_scripts": len(base), "hung_not_judged": sum(1 for x in recs if x["hung"])}
+
+
+def run_scripts_traced_plain(scripts, outdir, tag, flavor="plain"):
+    """Like run_scripts_traced but without --trace (verdict lines only)."""
+    exe = vlib.build_driver(flavor)
+    n = max(2, min(NCPU - 2, len(scripts) // 50 + 1))
+    pool = Pool(exe, n, outdir, tag, env=vlib.ASAN_ENV)
+    for s in scripts:
+        pool.send((json.dumps(s, separators=(",", ":")) + "\n").encode())
+    pool.finish()
+    out = [None] * len(scripts)
+    for k, fn in enumerate(pool.files):
+        with open(fn) as fh:
+            for line in fh:
+                v = json.loads(line)
+                out[(v["i"] - 1) * n + k] = v
+    return out
+
+
 def fam_destroy(tier, outdir):
     consts = {"Handles": "{1}", "MaxTime": 5, "MaxCalls": 4, "PipeCap": 4, "MaxOut": 0, "ExitCodes": "{3}", "TermDelay": 1,
               "DlOpts": "{0, 2}", "Timeouts": "{0, 2}", "ThirdActs": '"Small"', "StrictFailedStart <- Loose": None}
@@ -1094,7 +1199,7 @@ def run_tlc_plain(name, module, cfgpath, outdir, timeout=1500, workers=8):
     return st
 
 
-FAMILIES = {"realstatus": fam_realstatus, "real": fam_real, "optprod": fam_optprod, "free": fam_free, "env2": lambda t, o: fam_launch("env2", t, o), "two": fam_two, "restart": fam_restart, "threads": fam_threads, "conc": fam_conc, "wincmd": fam_wincmd, "wrapper": fam_wrapper, "faults": fam_faults, "env": lambda t, o: fam_launch("env", t, o), "wiring": lambda t, o: fam_launch("wiring", t, o), "options": lambda t, o: fam_launch("options", t, o),
+FAMILIES = {"anyfault": fam_anyfault, "realstatus": fam_realstatus, "real": fam_real, "optprod": fam_optprod, "free": fam_free, "env2": lambda t, o: fam_launch("env2", t, o), "two": fam_two, "restart": fam_restart, "threads": fam_threads, "conc": fam_conc, "wincmd": fam_wincmd, "wrapper": fam_wrapper, "faults": fam_faults, "env": lambda t, o: fam_launch("env", t, o), "wiring": lambda t, o: fam_launch("wiring", t, o), "options": lambda t, o: fam_launch("options", t, o),
             "destroy": fam_destroy, "status": fam_status, "run": fam_run, "stop": fam_stop, "life": fam_life, "poll": fam_poll, "stream": fam_stream, "drain": fam_drain}
 
 PROPS = {
@@ -1107,7 +1212,7 @@ PROPS = {
     "C11": {"families": ["wiring", "env2", "conc", "real"], "title": "nothing else is inherited"},
     "C13": {"families": ["options", "optprod"], "title": "options rejected up front, accepted as documented"},
     "C04": {"families": ["faults", "env", "wiring", "restart"], "title": "start is all-or-nothing and reports the real cause"},
-    "C05": {"families": ["faults", "wiring", "life"], "title": "no leak, no foreign or double close"},
+    "C05": {"families": ["faults", "anyfault", "wiring", "life"], "title": "no leak, no foreign or double close"},
     "C18": {"families": ["wincmd"], "title": "Windows command line and environment block",
             "level_text": "The real Windows string code (process.windows.c, utf.windows.c, compiled unchanged against a stub windows.h, under ASan+UBSan) is run on an exhaustive bounded enumeration of argument vectors and environments; every record of what the stubbed CreateProcessW received is validated by TLC against spec/WinCmdLine.tla (Split(cmdline) = argv by the documented parsing rules, exact buffer size, environment block layout).",
             "level_note": "Trusted: TLC, the transcription of the documented Windows parsing rules (Split, self-checked on documented examples), the stub windows.h (MultiByteToWideChar maps bytes 1:1: ASCII alphabet only). Windows run-time behaviour is out of reach (DESIGN 8).",
@@ -1201,7 +1306,7 @@ def conclude(prop, tier, results, known, outdir, t0):
             # report only what an immediate re-run repeats (guards against the environment, DESIGN 5.8)
             if d.get("script") is not None and d.get("kind") not in ("contract", "threads", "rejected", "optprod") and d.get("fn") != "wincmd" and replay(path, quiet=True) == 0:
                 continue
-            if d.get("kind") == "contract" and d.get("fn") != "wincmd" and n < 6 and not recheck_contract(d, os.path.join(OUT, prop, "recheck")):
+            if d.get("kind") == "contract" and d.get("fn") not in ("wincmd", "anyfault", "wait") and n < 6 and not recheck_contract(d, os.path.join(OUT, prop, "recheck")):
                 continue
             confirmed += 1
             print("VIOLATION property=%s replay=%s" % (prop, path))
